@@ -297,6 +297,7 @@ def parseTForm (j : Json) : R TForm := do
   | "argPlus" => return .argPlus (← nat j "n") (← int j "k")
   | "reg" => return .reg (← nat j "n")
   | "indReg" => return .indReg (← nat j "n")
+  | "indRegArgMul" => return .indRegArgMul (← nat j "n") (← int j "k")
   | "op" => return .op (← nat j "n")
   | _ => throw s!"tform {t}"
 
